@@ -1073,7 +1073,13 @@ func (v Value) MarshalJSON() ([]byte, error) {
 	switch v.kind {
 	case valueUndefined, valueNull:
 		return []byte("null"), nil
-	case valueBoolean, valueNumber:
+	case valueNumber:
+		// As in JSON.stringify (15.12.3): a number that is not finite is null.
+		if float := v.float64(); math.IsNaN(float) || math.IsInf(float, 0) {
+			return []byte("null"), nil
+		}
+		return json.Marshal(v.value)
+	case valueBoolean:
 		return json.Marshal(v.value)
 	case valueString:
 		return json.Marshal(v.string())
